@@ -109,6 +109,8 @@ def check_no_clamp(ctx, f, inscope):
     reach, no saturating / wrapping / clamping arithmetic is applied to a value that derives from an integer parameter (a clamp turns
     an invalid call into a different valid one)"""
     import re
+    ctx.rule("R3-elide", "OpsFound::resolve_action: a put is elided (None) or turned into a conflict-resolving delete only on the true edges of `existing.action == Action::Set` and `existing.value == new value`")
+    ctx.rule("R3-delete-all", "inner_splice: the predecessor list of a delete op and the successor updates are built from *all* ops found at the element (no last / first / from_ref / get / nth / take / skip / filter between seek_ops_by_index(..).ops and next_delete / add_succ_with_undo)")
     ctx.rule("R4-clamp", "no saturating_* / wrapping_* / clamp / min / max on values derived from integer parameters of the editing functions")
     CLAMP = re.compile(r"^core::num::(.*::)?(saturating_\w+|wrapping_\w+|clamp)$|^core::cmp::(Ord::)?(min|max|clamp)$")
     n = n_sites = 0
@@ -133,3 +135,103 @@ def check_no_clamp(ctx, f, inscope):
                 ctx.ob("R4-clamp", "%s|%s" % (norm_fn(p), c.split("::")[-1]), False, t["sp"],
                        "%s is applied to a value derived from the caller's %s: an out-of-range argument is silently replaced instead of being rejected" % (c.split("::")[-1], sorted(b.local_name(i) or i for i in dep)))
     ctx.ob("R4-clamp", "no clamped caller-supplied positions in the editing functions", n == 0, "", "%d clamping operations examined, %d on caller-supplied integers" % (n_sites, n))
+
+    check_elide(ctx, f)
+    check_delete_all(ctx, f)
+
+
+def paggs_of(b, op, depth=0):
+    """variants of the ADT constants an operand holds (following single definitions): [(adt, variant)]"""
+    k = util.op_const(op)
+    if k is not None:
+        return [tuple(x) for x in k.get("paggs", [])]
+    pl = op.get("c") or op.get("m")
+    if pl is None or pl["p"] or depth > 6:
+        return []
+    d = b.single_def(pl["l"])
+    if d is None or d[1] == "t":
+        return []
+    rv = d[2]["rv"]
+    if rv["k"] in ("Use", "Ref") and rv.get("o"):
+        return paggs_of(b, rv["o"][0], depth + 1)
+    if rv["k"] == "Ref":
+        p = rv["p"]
+        return paggs_of(b, {"c": {"l": p["l"], "p": [e for e in p["p"] if e != "*"]}}, depth + 1) if not [e for e in p["p"] if e != "*"] else []
+    if rv["k"] == "Agg" and rv.get("ak") == "adt":
+        return [(rv["adt"], rv["variant"])]
+    return []
+
+
+def check_elide(ctx, f):
+    RA = "automerge::op_set2::op_set::OpsFound::<'_>::resolve_action"
+    b = ctx.body(RA)
+    ctx.analysed_fns.add(RA)
+    ACT = "automerge::op_set2::types::Action"
+    set_edges, val_edges, some_edges = [], [], []
+    for sb, sw in b.switches():
+        src = b.bool_operand_source(sw["op"])
+        if not src:
+            continue
+        if src["kind"] == "discr" and (src.get("ty") or "").startswith("core::option::Option<&automerge::op_set2::op::OpBuilder") or (src["kind"] == "discr" and "Option<&" in (src.get("ty") or "") and "op::" in (src.get("ty") or "")):
+            d = b.single_def(src["origin"][0])
+            if d and d[1] == "t" and (norm_fn(d[2].get("fn")) or "").endswith("::last"):
+                vs = src.get("vars") or {}
+                some_edges += [(sb, tb) for v, tb in sw["targets"] if vs.get(v) == "Some"] or [(sb, sw["otherwise"])]
+        if src["kind"] == "call" and (norm_fn(src.get("decl")) or "") == "core::cmp::PartialEq::eq":
+            t = src["t"]
+            tys = [util.strip_refs(x) for x in t.get("argtys", [])]
+            zero = [tb for v, tb in sw["targets"] if v == "0"]
+            true_e = [(sb, zero[0])] if src["negated"] and zero else [(sb, sw["otherwise"])]
+            if tys and all(x == ACT for x in tys) and any((ACT, "Set") in paggs_of(b, a) for a in t["args"]):
+                set_edges += true_e
+            elif tys and all("ScalarValue" in x for x in tys):
+                val_edges += true_e
+    ctx.floor("tests `existing.action == Action::Set` in resolve_action", len(set_edges), 1)
+    ctx.floor("tests `existing.value == new value` in resolve_action", len(val_edges), 1)
+    ctx.floor("Some arm of ops.last() in resolve_action", len(some_edges), 1)
+    n = 0
+    for bi, blk in enumerate(b.blocks):
+        if blk.get("cleanup"):
+            continue
+        for st in blk["st"]:
+            rv = st["rv"]
+            elide = st["d"]["l"] == 0 and rv["k"] == "Agg" and rv.get("adt") == "core::option::Option" and rv.get("variant") == "None"
+            resolve = rv["k"] == "Agg" and (rv.get("adt") or "").endswith("op_set::ResolvedAction") and rv.get("variant") == "ConflictResolution"
+            if not (elide or resolve) or not b.edges_dominate(some_edges, bi):
+                continue
+            n += 1
+            ok = b.edges_dominate(set_edges, bi) and b.edges_dominate(val_edges, bi)
+            ctx.ob("R3-elide", "resolve_action|%s|%d" % ("no op emitted" if elide else "conflict-resolving delete", n), ok, st["sp"],
+                   "only when the existing op is a Set of the same value" if ok else
+                   "a put is elided although the existing op is not known to be a Set of the same value: putting a scalar over an object (whose op carries a null value) changes nothing")
+    ctx.floor("elision outcomes on the existing-op arm of resolve_action", n, 2)
+
+
+SELECT = ("last", "first", "from_ref", "get", "nth", "take", "skip", "filter", "filter_map", "find", "split_last", "split_first", "last_mut", "first_mut", "pop")
+
+
+def check_delete_all(ctx, f):
+    SP = TI + "inner_splice"
+    b = ctx.body(SP)
+    ctx.analysed_fns.add(SP)
+    # the slice stops at the element lookup (its arguments are positions) and at the construction of the delete op (its id is not a selection)
+    is_seek = lambda rec: (callee(rec) or "").endswith("OpSet::seek_ops_by_index") or callee(rec) == TI + "next_delete"
+    sites = []
+    for bi, t in b.calls():
+        c = callee(t) or ""
+        if c == TI + "next_delete":
+            sites.append((bi, t, t["args"][4], "predecessors of the delete op"))
+        elif c.endswith("OpSet::add_succ_with_undo"):
+            sites.append((bi, t, t["args"][1], "successor updates"))
+    ctx.floor("delete-op constructions / successor updates in inner_splice", len(sites), 2)
+    for k, (bi, t, a, what) in util.ordinal_keys(sites, lambda it: "inner_splice|%s" % it[3]):
+        pv = b.provenance(a, through_calls=True, stop=is_seek)
+        from_seek = any(norm_fn(c).endswith("OpSet::seek_ops_by_index") for c, _ in pv.stopped)
+        names = {norm_fn(c).split("::")[-1] for c in pv.callees()}
+        for cl in pv.closures:
+            r = f.fns.get(cl)
+            if r is not None:
+                names |= {(norm_fn(tt.get("fn")) or "").split("::")[-1] for _, tt in f.calls(r)}
+        sel = sorted(names & set(SELECT))
+        ctx.ob("R3-delete-all", k, from_seek and not sel, t["sp"], "built from every op found at the element" if from_seek and not sel else
+               "the %s cover only part of the ops found at the element (selection by %s; from the element lookup: %s): deleting an element with conflicting values leaves the other values visible" % (what, sel, from_seek))
